@@ -26,7 +26,8 @@ CONNS = [None, 0, 1e-9, 0.1, 0.5, 0.999, 1]
 def floors(ctx):
     q = ctx.tier == "quick"
     return {"evaluations": 5000 if q else 50000, "small_count_default_connectivity": 50,
-            "hostile_stream_runs": 100, "reproducibility_checked": 500, "graphs_with_links": 1000}
+            "hostile_stream_runs": 100, "reproducibility_checked": 500, "graphs_with_links": 1000,
+            "large_count_runs": 50}
 
 
 class ScriptedStream:
@@ -169,6 +170,16 @@ def run(ctx):
                     if k in (7, 300) and ctx.shard == 0:
                         ctx.sample({"count": count, "edge": cname, "connectivity": conn, "ensurelink": ensure,
                                     "seeds": [base, base + nseeds - 1], "hostile_streams": ["min", "max", "alt"]})
+    # counts around CPython's small-int cache and beyond (cheap: a handful of runs each)
+    if ctx.shard == 0:
+        for count in (255, 256, 257, 300, 1000):
+            for cname in ("DirectedEdge", "UnDirectedEdge"):
+                for conn in (None, 0, 0.01, 1):
+                    if conn == 1 and count > 300:
+                        continue
+                    for ensure in (True, False):
+                        run_seeded(ctx, count, cname, conn, ensure, base + count)
+                        ctx.count("large_count_runs")
     # the README call: default everything
     for s in range(20):
         state = random.getstate()
